@@ -1,0 +1,155 @@
+//go:build verif
+
+package regexp2
+
+// Verification hooks (build tag verif). They expose single-position attempts, a scan with all
+// search acceleration disabled, the candidate finder alone and a few read-only views of internal
+// state to the harness in /verif. None of this is compiled into a normal build.
+
+import (
+	"sync/atomic"
+
+	"github.com/dlclark/regexp2/v2/syntax"
+)
+
+const verifOn = true
+
+var verifMaxTrackCap atomic.Int64
+
+func verifNoteTrackCap(n int) {
+	for {
+		old := verifMaxTrackCap.Load()
+		if int64(n) <= old || verifMaxTrackCap.CompareAndSwap(old, int64(n)) {
+			return
+		}
+	}
+}
+
+// VerifResetMaxTrackCap clears the high-water mark of backtracking stack allocations.
+func VerifResetMaxTrackCap() { verifMaxTrackCap.Store(0) }
+
+// VerifMaxTrackCap is the largest backtracking stack (in slots) allocated by any runner since the
+// last reset.
+func VerifMaxTrackCap() int { return int(verifMaxTrackCap.Load()) }
+
+// VerifCode returns the compiled program.
+func VerifCode(re *Regexp) *syntax.Code { return re.code }
+
+// VerifQuickCode returns the bool-only program (nil when there is none).
+func VerifQuickCode(re *Regexp) *syntax.Code { return re.quickCode }
+
+// VerifHasStringPrefixFilter reports whether the raw-string prefix filter is installed.
+func VerifHasStringPrefixFilter(re *Regexp) bool { return re.stringPrefixFilter != nil }
+
+// VerifStringPrefixFilter runs the raw-string prefix filter alone.
+func VerifStringPrefixFilter(re *Regexp, s string, startAt int) (int, bool, bool) {
+	if re.stringPrefixFilter == nil {
+		return 0, false, false
+	}
+	c, ok := re.stringPrefixFilter(s, startAt)
+	return c, ok, true
+}
+
+func (r *Runner) verifSetup(rt []rune, textstart int, useQuick bool) {
+	re := r.re
+	r.timeout = re.MatchTimeout
+	r.ignoreTimeout = DefaultMatchTimeout == re.MatchTimeout
+	r.debug = false
+	r.Runtextstart = textstart
+	r.Runtext = rt
+	r.Runtextend = len(rt)
+	if useQuick && re.quickCode != nil {
+		r.code = re.quickCode
+	}
+	r.initMatch(newMatchText(rt))
+	r.startTimeoutWatch()
+}
+
+// VerifAttemptAt runs the compiled program once, at position pos, with \G bound to textstart:
+// no candidate finder, no prefix filter, no minimum-length cut-off, no bump-along.
+func VerifAttemptAt(re *Regexp, rt []rune, pos, textstart int, useQuick bool) (*Match, error) {
+	r := re.getRunner()
+	defer re.putRunner(r)
+	r.verifSetup(rt, textstart, useQuick)
+	r.Runtextpos = pos
+	if err := executeDefault(r); err != nil {
+		return nil, err
+	}
+	if r.runmatch.matchcount[0] > 0 {
+		return r.tidyMatch(false), nil
+	}
+	return nil, nil
+}
+
+// VerifNaiveScan attempts the program at every position in scan order starting at start (one
+// further when prevLen == 0, as FindNextMatch does after an empty match), each attempt from a
+// fresh interpreter state, with all search acceleration disabled. \G is bound to textstart.
+func VerifNaiveScan(re *Regexp, rt []rune, start, textstart, prevLen int, useQuick bool) (*Match, error) {
+	bump, stop := 1, len(rt)
+	if re.RightToLeft() {
+		bump, stop = -1, 0
+	}
+	pos := start
+	if prevLen == 0 {
+		if pos == stop {
+			return nil, nil
+		}
+		pos += bump
+	}
+	for {
+		m, err := VerifAttemptAt(re, rt, pos, textstart, useQuick)
+		if err != nil || m != nil {
+			return m, err
+		}
+		if pos == stop {
+			return nil, nil
+		}
+		pos += bump
+	}
+}
+
+// VerifFindFirstChar runs the candidate finder alone from pos and returns whether it found a
+// candidate and where it left the scan position.
+func VerifFindFirstChar(re *Regexp, rt []rune, pos, textstart int) (bool, int) {
+	r := re.getRunner()
+	defer re.putRunner(r)
+	r.verifSetup(rt, textstart, false)
+	r.Runtextpos = pos
+	ffc := re.findFirstChar
+	if ffc == nil {
+		ffc = findFirstCharDefault
+	}
+	ok := ffc(r)
+	return ok, r.Runtextpos
+}
+
+// VerifRunnerSnapshot reports the reset-relevant fields of a pooled interpreter state.
+type VerifRunnerState struct {
+	TrackLen, StackLen, CrawlLen int
+	CodeIsMain                   bool
+	RuntextNil                   bool
+	MatchTextNil                 bool
+	HasMatch                     bool
+}
+
+func VerifRunnerSnapshot(re *Regexp) VerifRunnerState {
+	r := re.getRunner()
+	defer re.putRunner(r)
+	return VerifRunnerState{
+		TrackLen: len(r.runtrack), StackLen: len(r.runstack), CrawlLen: len(r.runcrawl),
+		CodeIsMain: r.code == re.code, RuntextNil: r.Runtext == nil,
+		MatchTextNil: r.runmatch == nil || r.runmatch.text == nil, HasMatch: r.runmatch != nil,
+	}
+}
+
+// VerifTextpos exposes where the next search after m would resume.
+func VerifTextpos(m *Match) int { return m.textpos }
+
+// VerifMatchArrays exposes the raw capture arrays of a match (per slot: count and the interval list).
+func VerifMatchArrays(m *Match) (counts []int, arrays [][]int, balancing bool) {
+	counts = append(counts, m.matchcount...)
+	for _, a := range m.matches {
+		arrays = append(arrays, append([]int(nil), a...))
+	}
+	return counts, arrays, m.balancing
+}
